@@ -237,6 +237,13 @@ func selfcheckStd(p *Program) int {
 	for _, t := range []string{"{[0-9+\\-a_]}{[0-9a_]}{d}", "{d}{d}{d}{d}", "{[+\\-]}{d}", "{i}{i}", "{[0-9+\\-a_A]}{[0-9a_A\\-]}{[0-9A\\-]}"} {
 		ls = append(ls, lemma{"VXStdParseInt", []ArgSpec{ArgTmpl(t)}})
 	}
+	// regexp matching on symbolic bytes >= 0x80 (no leads of 3- and 4-byte sequences: those are unsupported)
+	for _, t := range []string{"{[\\x00-\\xdf\\xf5-\\xff]}", "{[\\x00-\\xdf\\xf5-\\xff]}{[\\x00-\\xdf\\xf5-\\xff]}", "{d}{[\\xc2-\\xdf]}{[\\x80-\\xbf]}"} {
+		ls = append(ls, lemma{"VXStdRegexp", []ArgSpec{ArgTmpl(t)}})
+	}
+	for _, t := range []string{"{[\\x00-\\xdf\\xf5-\\xff]}", "{[\\xc2-\\xdf]}{[\\x80-\\xbf]}", "{a}{[\\xc2-\\xdf]}{[\\x80-\\xbf]}{a}"} {
+		ls = append(ls, lemma{"VXStdCase", []ArgSpec{ArgTmpl(t)}})
+	}
 	// for-range rune decoding over all byte strings of length 1-3 and 4-byte strings with a 4-byte lead
 	for _, t := range []string{"{B}", "{B}{B}", "{B}{B}{B}", "{[\\xf0-\\xf7]}{B}{B}{B}"} {
 		ls = append(ls, lemma{"VXStdUTF8", []ArgSpec{ArgTmpl(t)}})
@@ -264,6 +271,9 @@ func selfcheckStd(p *Program) int {
 		for _, l := range ls {
 			if solver == "z3" && l.fn == "VXStdTime" && !strings.HasPrefix(l.args[0].S, "20") {
 				continue // z3 4.8.12 needs ~15 s per century; one century is enough for the cross-check
+			}
+			if solver == "z3" && l.fn == "VXStdCase" {
+				continue // the case-mapping lemmas (hundreds of range atoms) take z3 4.8.12 over a minute
 			}
 			for _, flip := range []bool{false, true} {
 				cfg := &Config{ID: fmt.Sprintf("self/std/%s/%s/%v/%v", solver, l.fn, l.args, flip), Pkg: zzhPkg, Func: l.fn, Args: append(append([]ArgSpec{}, l.args...), ArgBool(flip))}
